@@ -221,8 +221,22 @@ class Run:
         dev = M.UsbDevice(vid=0x1FC9, pid=0x0135, path=b"SIM", timeout=kn["timeout_ms"])
         iface = N.SdpUSBInterface(dev)
         sdps = N.SDPS(iface, p["family"])
-        info = sdps.rom_info
+        sdps_families()
+        family = p["family"]
+
+        class Info:
+            pass
+
+        info = Info()
+        info.no_cmd, info.hid_pack_size = SDPS_ROM[family]
         for k, op in enumerate(p["ops"]):
+            if op["op"] == "set_family":
+                # the same object goes on with another ROM (public setter)
+                sdps.family = op["family"]
+                family = op["family"]
+                info.no_cmd, info.hid_pack_size = SDPS_ROM[family]
+                self.probe("sdps_family_changed_on_a_used_object")
+                continue
             data = gen_bytes(op["dseed"], op["len"])
             sdps.open()
             link.new_op(lk.FaultPlan())
@@ -235,7 +249,7 @@ class Run:
             except Exception as exc:  # pylint: disable=broad-except
                 outcome = ("other_exc", type(exc).__name__)
             reps = eng.reports[n0:]
-            where = f"op {k} sdps.write_file(len={len(data)}) family {p['family']}"
+            where = f"op {k} sdps.write_file(len={len(data)}) family {family}"
             self.log.add("sdps", k, outcome[0], len(reps), [len(r) for r in reps[:3]])
             if outcome[0] != "ret":
                 self.violation("fault-free", "sdps:write_file:" + outcome[0], f"{where}: ended with {outcome}")
@@ -294,6 +308,7 @@ def _sig(v):
 # ----------------------------------------------------------------------------------------------
 
 SDPS_FAMILIES = None
+SDPS_ROM: dict = {}  # family -> (no_cmd, hid_pack_size), read from the database files, not through SPSDK
 
 
 def sdps_families() -> list:
@@ -314,6 +329,10 @@ def sdps_families() -> list:
             txt = open(f, encoding="utf-8").read()
             if re.search(r"protocol:\s*sdps", txt) and not re.search(r"^alias:", txt, re.M):
                 out.append(name)
+                blk = txt[txt.index("protocol: sdps") :][:800]
+                m1 = re.search(r"no_cmd:\s*(\w+)", blk)
+                m2 = re.search(r"hid_pack_size:\s*(\d+)", blk)
+                SDPS_ROM[name] = (m1.group(1).lower() != "false" if m1 else True, int(m2.group(1)) if m2 else 1020)
         SDPS_FAMILIES = out or ["mimx8ulp"]
     return SDPS_FAMILIES
 
@@ -334,13 +353,12 @@ def gen_op(rng: random.Random) -> dict:
 
 def gen_plan(family: str, i: int, rng: random.Random, tier: str) -> dict:
     if family == "sdps":
-        return {
-            "proto": "sdps",
-            "family": rng.choice(sdps_families()),
-            "knobs": {"timeout_ms": 1000, "latency_us": 100},
-            "ops": [{"op": "write_file", "len": rng.choice([1, 1019, 1020, 1021, 1024, 1025, 2040, 4096, rng.randint(1, 9000)]), "dseed": rng.randrange(1 << 30)} for _ in range(rng.randint(1, 3))],
-            "faults": [],
-        }
+        ops = []
+        for _ in range(rng.randint(1, 4)):
+            if ops and rng.random() < 0.3:
+                ops.append({"op": "set_family", "family": rng.choice(sdps_families())})
+            ops.append({"op": "write_file", "len": rng.choice([1, 1019, 1020, 1021, 1024, 1025, 2040, 4096, rng.randint(1, 9000)]), "dseed": rng.randrange(1 << 30)})
+        return {"proto": "sdps", "family": rng.choice(sdps_families()), "knobs": {"timeout_ms": 1000, "latency_us": 100}, "ops": ops, "faults": []}
     transport = rng.choice(["uart", "hid"])
     timeout_ms = rng.choice([100, 500, 2000])
     knobs = {
